@@ -3,6 +3,7 @@ package props
 import (
 	"fmt"
 	"go/types"
+	"strings"
 
 	"bifrostverify/an"
 
@@ -12,6 +13,9 @@ import (
 const accPkg = "rpc/access"
 
 func c36(c *an.Check) {
+	// a lookup stream reports on ITS request: the directive it adds is never merged with one for another server id
+	equivCheck(c, func(f *ssa.Function) bool { return strings.Contains(an.FuncName(f), "rpc.lookupRpcService") })
+	accessResolverReset(c)
 	p := c.P
 	lk := p.Func(accPkg, "AccessRpcServiceServer", "LookupRpcService")
 	if lk == nil {
@@ -417,4 +421,52 @@ func init() {
 		Explain:     "Decides on SSA for the remote lookup stream: (LOCKSET) every access to the captured queue/flags and the value-id set happens inside a function literal passed to HoldLock of the function's own local broadcast guard; (R1) Exists is queued only when the id was inserted and len(values)==1, Removed only when the id was a member, was deleted and len(values)==0, an Idle change only when the idle state differs from the last reported one (which is then recorded); (WAITCH) the send loop re-obtains its wait channel in every iteration; (MIRROR) component ids are base58(protobuf(request)) in both directions; the lookup directive carries the requested service id. (OWNERSHIP) the critical section that hands the pending batch to the sender resets the shared queue to storage of its own (nil / fresh slice).",
 		NotCov:      "ordering of announcements on the wire over all callback interleavings; the directive bus's own value bookkeeping.",
 		Assumptions: commonAssumptions})
+}
+
+// accessResolverReset: the proxying resolver (second hop of a lookup) forgets the id of the value it removed: after
+// handler.RemoveValue(id) the id variable is reset before the next announcement is handled, otherwise a re-appearing
+// provider is never attached again.
+func accessResolverReset(c *an.Check) {
+	p := c.P
+	res := p.Func("rpc/access", "LookupRpcServiceResolver", "Resolve")
+	ok, why, n := false, "resolver or RemoveValue call not found", 0
+	if res != nil {
+		for _, g := range an.WithClosures(res) {
+			for _, b := range g.Blocks {
+				for _, ins := range b.Instrs {
+					call, isCall := ins.(*ssa.Call)
+					if !isCall || !call.Call.IsInvoke() || call.Call.Method.Name() != "RemoveValue" {
+						continue
+					}
+					n++
+					// SSA register form: no merge point may receive the removed id unchanged along an edge that comes through the
+					// removal (a predecessor block dominated by the block of the RemoveValue call)
+					v := call.Call.Args[0]
+					ok, why = false, "after RemoveValue(id) the id variable keeps its value: a later 'exists' is taken for 'already attached' and the re-appeared provider is never reported"
+					for _, b2 := range g.Blocks {
+						for _, i2 := range b2.Instrs {
+							ph, isPhi := i2.(*ssa.Phi)
+							if !isPhi {
+								continue
+							}
+							zeroFromRemoval, carriesOld := false, false
+							for ei, e := range ph.Edges {
+								if an.IsIntConst(e, 0) && call.Block().Dominates(b2.Preds[ei]) {
+									zeroFromRemoval = true
+								}
+								if e == v {
+									carriesOld = true
+								}
+							}
+							// the join after the removal: 0 along the removal edge, the old id along the other
+							if zeroFromRemoval && carriesOld {
+								ok, why = true, ""
+							}
+						}
+					}
+				}
+			}
+		}
+	}
+	c.Require(ok && n >= 1, "MUSTCALL", "rpc/access client resolver forgets the id of a removed value", res, "", n, "valID = 0 after RemoveValue(valID)", why)
 }
